@@ -184,3 +184,157 @@ class swr_transfer_bytes:
         }
 
     loops = {"for#1": Loop(invariant=lambda v, v0: {"ordered": S.And(0 <= v.lo, v.lo <= v.hi)}, hints=_hints)}
+
+
+# ---------------------------------------------------------------------------
+# trailing-window (bottleneck move_*) plan
+# ---------------------------------------------------------------------------
+def moving_ok(c, w):
+    """what `supports_native_moving_window(c, w) is True` establishes"""
+    return S.And(w >= 2, S.slen(c) >= 2, S.forall_idx(c, lambda j: S.And(S.at(c, j) >= 1, S.at(c, j) <= w - 1)), S.ssum(c) >= w)
+
+
+@contract(f"{SW}::supports_native_moving_window", spec="ints", props=["C19"])
+class supports_native_moving_window:
+    """the guard of the native trailing-window path: True only when window >= 2, at least two chunks, every chunk positive
+    and smaller than the window, and the axis holds a full window"""
+    params = {"chunks": "seq", "window": "int"}
+    result = "bool"
+
+    def requires(chunks, window):
+        return S.slen(chunks) >= 1
+
+    def ensures(result, chunks, window):
+        return {"true-only-when-the-banded-plan-is-valid": S.Implies(result, moving_ok(chunks, window))}
+
+    def domain(tier, rng):
+        for c in _all_chunkings(tier, zero=True):
+            for w in range(0, 9):
+                yield {"chunks": c, "window": w}
+
+
+@contract(f"{SW}::MovingWindowReduction._block_plan", spec="r1", props=["C19", "C03"])
+class mwr_block_plan:
+    """the banded plan of the trailing-window reduction.  Row q is (start_q, size_q, ...): the first block has no band;
+    for every later block the left edge of its first window, max(0, start_q - window + 1), lies in band block g and that
+    of its last window in block h, with g <= h < q (so the block's own prefix scan is never counted twice), band_offset
+    is the first edge's offset inside block g, and the middle blocks covered whole are exactly h+1 .. q-1.  Hence window
+    t of block q is [left edge, end of block h) + blocks h+1..q-1 + the block's own first t+1 elements."""
+    params = {"self": "obj:MWR"}
+    ghosts = {"q": "int"}
+    result = "rows:int,int,int,optint,optint,range"
+    fields = {"MWR": {"array": "obj:Arr", "sliding_axis": "const", "window": "int"}, "Arr": {"chunks": "tup:seq"}}
+    consts = {"self.sliding_axis": 0}
+    locals = {"starts": "lseq", "plan": "rows:int,int,int,optint,optint,range"}
+
+    def requires(self):
+        return moving_ok(S.item(self.get("array").get("chunks"), 0), self.get("window"))
+
+    def facts(self):
+        c = S.item(self.get("array").get("chunks"), 0)
+        return [("mono_prefix", c), ("prefix_nonneg", c), ("strict_prefix", c)]
+
+    def row_ok(c, w, row, q):
+        from pyvc.spec import Opt
+        start, size, off, g, h, middle = row
+        sq = S.prefix(c, q)
+        first = S.max_(0, sq - w + 1)
+        last = S.max_(first, sq + S.at(c, q) - w)
+        if isinstance(g, Opt):
+            g_none, g_val, h_none, h_val = S._b(g.n), S._i(g.v), S._b(h.n), S._i(h.v)
+            lo, hi = middle
+        else:
+            g_none, g_val, h_none, h_val = g is None, (g or 0), h is None, (h or 0)
+            lo, hi = middle.start, middle.stop
+        head = S.And(start == sq, size == S.at(c, q))
+        no_band = S.And(g_none, h_none, off == 0, hi <= lo)
+        band = S.And(S.Not(g_none), S.Not(h_none), 0 <= g_val, g_val <= h_val, h_val < q,
+                     S.prefix(c, g_val) <= first, first < S.prefix(c, g_val + 1), off == first - S.prefix(c, g_val),
+                     S.prefix(c, h_val) <= last, last < S.prefix(c, h_val + 1),
+                     lo == h_val + 1, hi == q)
+        return S.And(head, S.If(q == 0, no_band, band))
+
+    def ensures(result, self, q):
+        c = S.item(self.get("array").get("chunks"), 0)
+        w = self.get("window")
+        inr = S.And(0 <= q, q < S.slen(c))
+        return {"one-row-per-block": S.slen(result) == S.slen(c),
+                "row": S.Implies(inr, S.lazy_implies(inr, lambda: mwr_block_plan.row_ok(c, w, S.elem(result, q), q)))}
+
+    loops = {
+        "for#1": Loop(invariant=lambda v, v0: {
+            "starts": S.And(S.slen(v.starts) == v.it + 1,
+                            S.forall_idx(v.it + 1, lambda j: S.at(v.starts, j) == S.prefix(v.chunks, j))),
+        }),
+        "for#2": Loop(invariant=lambda v, v0: {
+            "len": S.slen(v.plan) == v.it,
+            "rows-so-far": S.Implies(S.And(0 <= v.q, v.q < v.it), mwr_block_plan.row_ok(v.chunks, v.window, S.elem(v.plan, v.q), v.q)),
+        }),
+    }
+
+    def call(fn, self):
+        return fn(self)
+
+    def normalize_result(result):
+        return [tuple(r) for r in result]
+
+    def domain(tier, rng):
+        from pyvc.concrete import Rec
+        for c in _all_chunkings(tier):
+            for w in range(2, 9):
+                yield {"self": Rec(array=Rec(chunks=(c,)), sliding_axis=0, window=w)}
+
+    def ghost_domain(self):
+        return {"q": range(0, len(self.get("array").get("chunks")[0]))}
+
+
+@contract(f"{SW}::MovingWindowReduction.transfer_bytes", spec="r1", props=["C27"])
+class mwr_transfer_bytes:
+    """transfer estimate of the native trailing-window reduction: 0 <= min <= max, from the plan's contract (class
+    invariant of `_block_plan`, proved by `_block_plan[r1]`): the part of the band a block reads under min is the band
+    blocks g..h minus the offset of its first window's left edge inside block g."""
+    params = {"self": "obj:MWR"}
+    result = "tup:real,real"
+    fields = {"MWR": {"array": "obj:Arr", "sliding_axis": "const", "window": "int", "_block_plan": "rows:int,int,int,optint,optint,range"},
+              "Arr": {"chunks": "tup:seq", "shape": "tup:int", "dtype": "obj:DType"}, "DType": {"itemsize": "int"}}
+    consts = {"self.sliding_axis": 0}
+    externals = {"TransferBytes": _ext_transfer_bytes}
+
+    def requires(self):
+        arr = self.get("array")
+        c = S.item(arr.get("chunks"), 0)
+        w = self.get("window")
+        plan = self.get("_block_plan")
+        rows = S.forall_idx(c, lambda q: mwr_block_plan.row_ok(c, w, S.elem(plan, q), q))
+        return S.And(moving_ok(c, w), S.slen(plan) == S.slen(c), rows, arr.get("dtype").get("itemsize") >= 0,
+                     S.item(arr.get("shape"), 0) == S.ssum(c))
+
+    def facts(self):
+        c = S.item(self.get("array").get("chunks"), 0)
+        return [("mono_prefix", c), ("prefix_nonneg", c)]
+
+    def ensures(result, self):
+        lo, hi = result.items
+        return {"0<=min<=max": S.And(0 <= lo.t, lo.t <= hi.t)}
+
+    def _hints(h, e):
+        from pyvc.spec import Opt
+        c = S.item(h.x.get("chunks"), 0)
+        g, hh = e.g, e.h
+        gv, hv = S._i(g.v), S._i(hh.v)
+        band = S.prefix(c, hv + 1) - S.prefix(c, gv)
+        has = S.Not(S._b(g.n))
+        sl = S.ssum(S.pyslice(c, g, Opt(False, hv + 1)))
+        lo_, hi_ = e.middle[1], e.middle[2]
+        return {
+            "band-blocks-in-range": S.Implies(has, S.And(0 <= gv, gv <= hv + 1, hv + 1 <= S.slen(c))),
+            "band-blocks-sum": S.Implies(has, sl == band),
+            "offset-inside-band": S.Implies(has, S.And(0 <= e.band_start, e.band_start <= band)),
+            "sizes-nonneg": S.And(e.c >= 0, e.cross >= 0),
+            "middle-count-nonneg": S.rlen(lo_, hi_, 1) >= 0,
+            "product-min": (S.rlen(lo_, hi_, 1) + S.If(has, sl - e.band_start, 0)) * e.cross >= 0,
+            "product-order": (S.rlen(lo_, hi_, 1) + S.If(has, sl - e.band_start, 0)) * e.cross
+                             <= (S.rlen(lo_, hi_, 1) + e.c + S.If(has, sl, 0)) * e.cross,
+        }
+
+    loops = {"for#1": Loop(invariant=lambda v, v0: {"ordered": S.And(0 <= v.lo, v.lo <= v.hi)}, hints=_hints)}
